@@ -551,7 +551,7 @@ MANIFEST = dict(
     technique="Lean 4 theorems on an executable model of the surface code (rows of residuals/check_residuals/model, "
               "add_potential_factor/add_cd_music_factors, gammas case 6/molalities, k_calc, calc_psi_avg/calc_all_donnan, "
               "calc_all_g with g_function/midpnt/qromb_midpnt/polint, the EDL read-outs); translator tools/gen_surfconst.py "
-              "(constants and hard-coded factors of the source → Gen/SurfConst.lean, theorem source_constants); correspondence: "
+              "(structural: statement search, constant/local resolution, helper inlining, polynomial normal form; constants and hard-coded factors of model.cpp, integrate.cpp, prep.cpp → Gen/SurfConst.lean, theorem source_constants); correspondence: "
               "the model re-evaluates every relation on in-process dumps of real runs, with species data (reaction, log K, ΔH, "
               "charge, -cd_music, site count), aqueous charges and the SURFACE block (area, mass, capacitances, sites) read "
               "independently from the database / input TEXT (tools/dbparse.py + own readers) and tied to the engine's tables",
